@@ -85,4 +85,12 @@ example : accepted bytesCmp
 
 example : bytesCmp [5] [9] = .lt := by decide
 
+/-- the hypotheses of `closed_table_eq_accepted` are satisfiable: no compression, and the sizes of the
+accepted pairs of the program above fit -/
+example : CompsOk plainComps plainCfg := ⟨rfl, rfl, trivial, trivial, by decide, by decide⟩
+
+example : FitsKV plainCfg [([5], some [1]), ([9], none)] := by
+  unfold FitsKV
+  exact ⟨by decide +kernel, by decide +kernel, by decide +kernel⟩
+
 end SST.C15
